@@ -103,6 +103,22 @@ PROPS = {
                 rule="histories with arbitrary timestamp order (jitter, multi-second steps back, oscillation) on stores with aggressive cleanup; no error/panic; window bound with measured J; budget probes at an earlier timestamp vs the latest one by re-execution"),
     "C18": dict(runs=[("core", "rate", dict(quick=600000, thorough=20000000))], proj=proj_full, tags=["C18"],
                 rule="(count, period) boundary lattice, divisors and near-divisors of period*1e9, random points in and outside D; unit constructors at boundaries and random n in 1..2^32-1; non-trivial = point inside D"),
+    "C09": dict(runs=[("server", "actor", dict(quick=300, thorough=6000)), ("server", "wire", dict(quick=40, thorough=600))], proj=proj_full, tags=["C09"],
+                rule="actor: the real actor loop (unspawned, hook) and real RateLimiterHandle::throttle futures polled by a hand-rolled deterministic scheduler - exhaustive enumeration of schedules for small configurations, random schedules for larger; every trace replayed through the Lean LTS validator with the GCRA model as limiter; wire: one in-process server with HTTP + gRPC + RESP on loopback sockets sharing one actor, traces validated (loose enq order)"),
+    "C10": dict(modules=["C10", "C10Resp"], runs=[("server", "actor", dict(quick=300, thorough=6000)), ("server", "conn", dict(quick=60, thorough=1500))], proj=proj_full, tags=["C10"],
+                rule="actor: schedules with queue capacity down to 1 and cancellation of pending requests at every poll boundary (before enqueue / after enqueue / after the reply was produced); conn: pipelined RESP streams over real TCP cut into random chunkings, PING tags identify reply order"),
+    "C11": dict(runs=[("server", "actor", dict(quick=200, thorough=4000)), ("server", "wire", dict(quick=40, thorough=600))], proj=proj_full, tags=["C11"],
+                rule="hostile prefixes (i64 boundary lattice as requests on every transport, malformed frames, abrupt closes, oversize buffers) followed by a probe request on a new connection whose answer is compared with the model"),
+    "C12": dict(runs=[("server", "cmd", dict(quick=400, thorough=10000)), ("server", "wire", dict(quick=40, thorough=600))], proj=proj_full, tags=["C12"],
+                rule="cmd: RESP commands (bulk vs :int arguments, any name case, arity 4..7, non-numeric / overflow arguments) through the real per-command handler with a real actor, the request the actor saw and the reply compared with the model's plan/finish; wire: each logical request routed to a random protocol/encoding over loopback sockets, wire answer compared field by field with what the actor log says the library decided"),
+    "C13": dict(runs=[("server", "resp", dict(quick=20000, thorough=2000000)), ("server", "conn", dict(quick=60, thorough=1500))], proj=proj_full, tags=["C13"],
+                rule="resp: ALL byte strings up to length 5 (thorough 6) over the 13-symbol protocol alphabet + grammar-generated frames with mutations and hostile headers through the real RespParser vs the model; prefix-stability / bounds / depth-restored asserted on the real parser; conn: real TCP, same stream under several chunkings incl. 1-byte chunks"),
+    "C14": dict(runs=[("server", "resp", dict(quick=20000, thorough=2000000)), ("server", "cmd", dict(quick=400, thorough=10000))], proj=proj_full, tags=["C14"],
+                rule="resp: recursively generated values (all five kinds, CR/LF inside bulk strings, i64 extremes, depth up to 128) through the real serializer and parser; cmd: every reply of the real command handler serialised and parsed back as exactly one frame (command names with CR/LF, quotes, non-ASCII)"),
+    "C15": dict(runs=[("server", "metrics", dict(quick=300, thorough=6000)), ("server", "cmd", dict(quick=400, thorough=10000)), ("server", "wire", dict(quick=40, thorough=600))], proj=proj_full, tags=["C15"],
+                rule="metrics: random event lists vs the model's counters; 8 OS threads hammering one Metrics, identities at barriers; cmd/wire: which counter each real command moved, /metrics scraped and parsed at quiescent points and compared with what clients saw"),
+    "C16": dict(runs=[("server", "metrics", dict(quick=300, thorough=6000))], proj=proj_full, tags=["C16"],
+                rule="adversarial denial streams (unbounded distinct keys, late heavy hitters, ties, 255/256/257-byte keys, quotes/backslashes/controls/non-ASCII) on sizes 1..100 (+0, 20000 for the clamp); the table before/after EVERY update and every report checked by the model's relational validators (any tie-breaking accepted); escaped labels compared byte for byte; export parsed back line by line"),
 }
 
 # ------------------------------------------------------------------------------------------------
@@ -142,13 +158,19 @@ def save_replay(pid, kind, header, lines):
 # ------------------------------------------------------------------------------------------------
 
 def theorem_names(pid):
-    path = os.path.join(LEAN, "TcVerif", "Props", f"{pid}.lean")
-    if not os.path.exists(path):
-        return None, []
-    src = open(path).read()
-    src_nc = re.sub(r"/-.*?-/", "", src, flags=re.S)
-    src_nc = re.sub(r"--.*", "", src_nc)
-    return src, re.findall(r"^theorem\s+([A-Za-z0-9_'.]+)", src_nc, flags=re.M)
+    """theorem names of every Props module that belongs to the property (Props/<pid>.lean plus extras)"""
+    mods = PROPS.get(pid, {}).get("modules", [pid])
+    names, srcs = [], []
+    for m in mods:
+        path = os.path.join(LEAN, "TcVerif", "Props", f"{m}.lean")
+        if not os.path.exists(path):
+            return None, []
+        src = open(path).read()
+        srcs.append(src)
+        src_nc = re.sub(r"/-.*?-/", "", src, flags=re.S)
+        src_nc = re.sub(r"--.*", "", src_nc)
+        names += re.findall(r"^theorem\s+([A-Za-z0-9_'.]+)", src_nc, flags=re.M)
+    return "\n".join(srcs), names
 
 def grep_forbidden():
     bad = []
@@ -173,10 +195,11 @@ def leg_p(pid, tier):
         res["failing"] = f"TcVerif.Props.{pid} (missing)"
         return res
     res["obligations"] = len(names)
-    mod = f"TcVerif.Props.{pid}"
+    mods = [f"TcVerif.Props.{m}" for m in PROPS.get(pid, {}).get("modules", [pid])]
+    mod = " ".join(mods)
     res["checker_cmd"] = f"cd lean && lake build {mod} && lake env lean <audit: #print axioms of {len(names)} theorems>"
     with Lock("lake"):
-        rc, out = sh(["lake", "build", mod], cwd=LEAN, timeout=3000)
+        rc, out = sh(["lake", "build"] + mods, cwd=LEAN, timeout=3000)
     if rc != 0:
         errs = [l for l in out.splitlines() if "error" in l]
         res["detail"] = "lake build failed:\n" + "\n".join(errs[:20])
@@ -192,7 +215,9 @@ def leg_p(pid, tier):
     os.makedirs(audit_dir, exist_ok=True)
     apath = os.path.join(audit_dir, f"Audit{pid}.lean")
     with open(apath, "w") as f:
-        f.write(f"import {mod}\nopen TcVerif\n")
+        for m in mods:
+            f.write(f"import {m}\n")
+        f.write("open TcVerif\n")
         for n in names:
             f.write(f"#print axioms {n}\n")
     rc, out = sh(["lake", "env", "lean", apath], cwd=LEAN, timeout=1200)
@@ -220,7 +245,7 @@ def leg_p(pid, tier):
     res["theorems"] = names
     if tier == "thorough" and ok == len(names):
         with Lock("lake"):
-            rc, out = sh(["lake", "env", "leanchecker", mod], cwd=LEAN, timeout=3000)
+            rc, out = sh(["lake", "env", "leanchecker"] + mods, cwd=LEAN, timeout=3000)
         res["leanchecker"] = "ok" if rc == 0 else out[-500:]
         if rc != 0:
             res["detail"] += "leanchecker rejected the module\n"
@@ -358,9 +383,6 @@ def main(argv):
     if "--replay" in argv:
         return replay(pid, argv[argv.index("--replay") + 1])
     seed = int(os.environ.get("VERIF_SEED", "1") or 1)
-    if pid in SERVER_PROPS:
-        import checkserver
-        return checkserver.run(pid, tier, seed)
     if pid not in PROPS:
         print(f"unknown property {pid}")
         return 2
@@ -481,6 +503,7 @@ def replay(pid, path):
     if not ok:
         print(detail)
         return 2
-    rc, out = sh([harness_bin("core", "release"), "replay", "--file", path], timeout=600)
+    crate = "server" if any(c == "server" for (c, _, _) in PROPS.get(pid, {}).get("runs", [])) else "core"
+    rc, out = sh([harness_bin(crate, "release"), "replay", "--file", path], timeout=600)
     print(out)
     return 1 if "impl-violation" in out else 0
